@@ -22,7 +22,7 @@ RULE = (
 )
 ASSUMPTIONS = [
     "angular tolerance 2e-5 degrees only where arccos is ill-conditioned (angular distance < 0.01 degrees; cone distance < 0.01 or > 179.99 degrees: arccos of a dot product carrying 1 ulp error is off by up to 1.7e-6 degrees there); 1e-9 degrees elsewhere",
-    "c_symmetry > 1 is not part of the property and is not exercised",
+    "c_symmetry > 1: only the clauses that are independent of what a symmetry means are asserted (range, symmetry in the arguments, zero for equal orientations)",
     "test inputs are built with scipy Rotation.from_matrix / from_euler; expected values never use scipy",
 ]
 BUDGET = {"quick": {"examples": 2500, "seconds": 60}, "thorough": {"examples": 12000, "seconds": 420}}
@@ -302,6 +302,31 @@ def run_pairs(case, out):
         if ok:
             v = np.asarray(v, float).reshape(-1)
             out.check(v.shape == (n,) and bool(np.all(np.abs(v - want) <= TOL)), f"compare:{rt}_selection", lambda: f"{v[:3]}")
+    ok, v = call(out, "compare_rotations", lambda: geom.compare_rotations(A, B, rotation_type="in_plane_distance"))
+    if ok:
+        v = np.asarray(v, float).reshape(-1)
+        out.check(v.shape == (n,) and bool(np.all((v >= 0) & (v <= 180 + 1e-9))), "compare:in_plane_distance_selection_range", lambda: f"{v[:3]}")
+        if "c2" in dir() and isinstance(c2, np.ndarray) and c2.shape == (n,):
+            out.check(bool(np.all(v == c2)), "compare:in_plane_distance_selection_is_not_the_third_of_all", lambda: f"{v[:3]} vs {c2[:3]}")
+    # the clauses that do not depend on what a symmetry means also hold when one is given: range, symmetry in the two
+    # arguments, zero for equal orientations
+    ns = 2 + (n + len(kinds[0])) % 5
+    out.label(f"c_symmetry:{ns}")
+    ok1, s_ab = call(out, "angular_distance(c_symmetry)", lambda: geom.angular_distance(RA, RB, c_symmetry=ns))
+    ok2, s_ba = call(out, "angular_distance(c_symmetry)", lambda: geom.angular_distance(RB, RA, c_symmetry=ns))
+    ok3, s_aa = call(out, "angular_distance(c_symmetry)", lambda: geom.angular_distance(RA, RA, c_symmetry=ns))
+    if ok1 and ok2 and ok3:
+        s_ab, s_ba, s_aa = [np.asarray(v_[0], float).reshape(-1) for v_ in (s_ab, s_ba, s_aa)]
+        if out.check(s_ab.shape == (n,) and bool(np.all(np.isfinite(s_ab))), "angdist_sym:shape_or_nan", s_ab.shape):
+            out.check(bool(np.all((s_ab >= 0) & (s_ab <= 180 + 1e-9))), "angdist_sym:out_of_range", lambda: f"{s_ab.min()} {s_ab.max()}")
+            out.check(bool(np.all(np.abs(s_ab - s_ba) <= TOL)), "angdist_sym:not_symmetric", lambda: f"{np.abs(s_ab - s_ba).max()}")
+            out.check(bool(np.all(s_aa <= TOL)), "angdist_sym:nonzero_for_equal", lambda: f"{s_aa.max()}")
+    ok1, i_ab = call(out, "inplane_distance(c_symmetry)", lambda: geom.inplane_distance(RA, RB, c_symmetry=ns))
+    ok3, i_aa = call(out, "inplane_distance(c_symmetry)", lambda: geom.inplane_distance(RA, RA, c_symmetry=ns))
+    if ok1 and ok3:
+        i_ab, i_aa = np.asarray(i_ab, float).reshape(-1), np.asarray(i_aa, float).reshape(-1)
+        out.check(i_ab.shape == (n,) and bool(np.all((i_ab >= 0) & (i_ab <= 180 + 1e-9))), "inplane_sym:out_of_range", lambda: f"{i_ab.min()} {i_ab.max()}")
+        out.check(bool(np.all(i_aa == 0)), "inplane_sym:nonzero_for_equal", lambda: f"{i_aa.max()}")
 
 
 def run_angles(case, out):
